@@ -236,6 +236,22 @@ def _reaches_literal_tests(f, body, depth=0, seen=None):
     return False
 
 
+def _self_field_through_pointer(body, pl, env):
+    """`*target = v` where, on this path, `target = &mut self.a.b`: ['a', 'b'] (the arm chose the field, one shared store writes it)"""
+    if pl['l'] <= body.arg_count or not pl['p'] or pl['p'][0]['p'] != 'deref':
+        return None
+    loc = body.tree_of_place(pl, 0, env)
+    names = []
+    while isinstance(loc, tuple) and loc and loc[0] == 'field':
+        names.append(loc[2])
+        loc = loc[1]
+    while isinstance(loc, tuple) and loc and loc[0] in ('deref', 'ref'):
+        loc = loc[1]
+    if names and isinstance(loc, tuple) and loc[:2] == ('arg', 1):
+        return list(reversed(names))
+    return None
+
+
 def s14_set_arms(ctx):
     f = ctx.facts()
     m = Model(f)
@@ -302,6 +318,8 @@ def s14_set_arms(ctx):
                 for s in body.blocks[bi]['stmts']:
                     if s['s'] == 'assign':
                         fp = self_field_of_place(s['pl'])
+                        if fp is None:
+                            fp = _self_field_through_pointer(body, s['pl'], env)
                         if fp is not None:
                             writes.append((fp, body.tree_of_rvalue(s['rv'], 0, env), s['sp']['l']))
                     elif s['s'] == 'setdiscr' and self_field_of_place(s['pl']) is not None:
@@ -508,7 +526,7 @@ def s15_naming_forwarding(ctx):
             if it['kind'] != 'Fn':
                 continue
             nfwd += 1
-            b = m.body(it['path'], prefer_mono=False)
+            b = m.body_inlined(it['path'], prefer_mono=False)     # a private boxing helper is part of the forwarder
             if b is None:
                 raise Broken('no body for forwarder %s' % it['path'])
             key = '%s|%s' % (dyn_trait.rsplit('::', 1)[-1], it['name'])
